@@ -73,24 +73,24 @@ Proof. exact fixed_point_example. Qed.
     round trip of C02 does not cover yet), so the real instance of the fixed point is conditional on
     the loaded font being valid; what the reader does guarantee for every loaded glyph is proved
     separately ([C04_loaded_glyphs_obey_rules_real], from C12_returned_glyph_rules).
-    Remaining hypotheses: [base_laws B PG PK], [L1_glif] (see Props/C01.v, C01_roundtrip_real) and
+    Remaining hypotheses: [codecs_ok K], [L1_glif] (see Props/C01.v, C01_roundtrip_real) and
     [font_valid f] for the loaded font (to be reduced to: its glyphs are lib-free and canonical, once
     the base parts are closed — C13_load_only_valid, C15_load_returns_only_ok). *)
-Theorem C04_fixed_point_real : forall pf ff ff3 fi fh (B : sig) PG PK,
-  L1_glif pf ff ff3 fh -> base_laws B PG PK ->
-  forall o (t : tree (real_sig pf ff ff3 fi fh B PG PK)) (f : font (real_sig pf ff ff3 fi fh B PG PK)),
-  load (real_sig pf ff ff3 fi fh B PG PK) t = Ok f -> font_valid (real_sig pf ff ff3 fi fh B PG PK) f ->
-  exists t', save (real_sig pf ff ff3 fi fh B PG PK) o f = Ok t' /\
-             exists f', load (real_sig pf ff ff3 fi fh B PG PK) t' = Ok f' /\ font_equiv (real_sig pf ff ff3 fi fh B PG PK) f f'.
+Theorem C04_fixed_point_real : forall pf ff ff3 fi fh (K : codecs),
+  L1_glif pf ff ff3 fh -> codecs_ok K ->
+  forall o (t : tree (real_sig pf ff ff3 fi fh K)) (f : font (real_sig pf ff ff3 fi fh K)),
+  load (real_sig pf ff ff3 fi fh K) t = Ok f -> font_valid (real_sig pf ff ff3 fi fh K) f ->
+  exists t', save (real_sig pf ff ff3 fi fh K) o f = Ok t' /\
+             exists f', load (real_sig pf ff ff3 fi fh K) t' = Ok f' /\ font_equiv (real_sig pf ff ff3 fi fh K) f f'.
 Proof.
-  intros pf ff ff3 fi fh B PG PK L HB o t f _ Hv.
-  destruct (roundtrip_real pf ff ff3 fi fh B PG PK L HB o f Hv) as (t' & H1 & _ & H2). eauto.
+  intros pf ff ff3 fi fh K L HB o t f _ Hv.
+  destruct (roundtrip_real pf ff ff3 fi fh K L HB o f Hv) as (t' & H1 & _ & H2). eauto.
 Qed.
 (** every glyph of a font loaded through the real glif reader is a parsed glyph — it obeys the
     glyph rules of C12 and holds no public.objectLibs — renamed to its key of contents.plist *)
-Theorem C04_loaded_glyphs_obey_rules_real : forall pf ff ff3 fi fh (B : sig) PG PK
-  (t : tree (real_sig pf ff ff3 fi fh B PG PK)) (f : font (real_sig pf ff ff3 fi fh B PG PK)),
-  load (real_sig pf ff ff3 fi fh B PG PK) t = Ok f ->
+Theorem C04_loaded_glyphs_obey_rules_real : forall pf ff ff3 fi fh (K : codecs)
+  (t : tree (real_sig pf ff ff3 fi fh K)) (f : font (real_sig pf ff ff3 fi fh K)),
+  load (real_sig pf ff ff3 fi fh K) t = Ok f ->
   Forall (fun l => Forall (fun e : str * str * glyph =>
             exists g, glyph_rules g /\ lookup objlibs_key (glib g) = None /\ snd e = set_gname (fst (fst e)) g)
             (l_glyphs l)) (f_layers _ f).
